@@ -531,16 +531,46 @@ theorem numLoop_sk {cfg : Cfg} {sql : Sql} (hW : WF sql) :
                 · exact numIdentTail_sk hW hon h
                 · exact finishNumber_sk h
 
+theorem valueLoop_sk {cfg : Cfg} {sql : Sql} :
+    ∀ (f : Nat) (st st' : St), valueLoop cfg sql f st = .ok st' → st'.skew = st.skew := by
+  intro f
+  induction f with
+  | zero => intro st st' h; simp only [valueLoop] at h; cases h
+  | succ f ih =>
+    intro st st' h
+    simp only [valueLoop] at h
+    split at h
+    · cases h; rfl
+    · split at h
+      · obtain ⟨s, h1, h2⟩ := bind_ok h
+        rw [ih _ _ h2, advanceAlnum_sk h1]
+      · cases h; rfl
+
+theorem radixAdd_sk {cfg : Cfg} {sql : Sql} {st st' : St} {base : Nat} {ty : String}
+    (h : radixAdd cfg sql st base ty = .ok st') : st'.skew = st.skew := by
+  unfold radixAdd at h
+  split at h
+  · cases h
+  · exact add_sk h
+  · exact add_sk h
+
+theorem scanRadix_sk {cfg : Cfg} {sql : Sql} {st st' : St} {base : Nat} {ty : String}
+    (h : scanRadix cfg sql st base ty = .ok st') : st'.skew = st.skew := by
+  unfold scanRadix at h
+  obtain ⟨s, h1, h2⟩ := bind_ok h
+  obtain ⟨s2, h3, h4⟩ := bind_ok h2
+  rw [radixAdd_sk h4, valueLoop_sk _ _ _ h3, advance1_sk h1]
+
 theorem scanNumber_sk {cfg : Cfg} {sql : Sql} (hW : WF sql) {st st' : St} (hon : OnText sql st)
     (h : scanNumber cfg sql st = .ok st') : st'.skew = st.skew := by
   unfold scanNumber at h
   split at h
   · split at h
-    · cases h
+    · exact scanRadix_sk h
     · exact add_sk h
   · split at h
     · split at h
-      · cases h
+      · exact scanRadix_sk h
       · exact add_sk h
     · exact numLoop_sk hW _ _ _ _ _ _ hon h
 
@@ -567,6 +597,16 @@ theorem word_jump_sk {sql : Sql} (hW : WF sql) {st s : St} {w : List Char} (hraw
   rw [e] at hg
   exact not_nl_of_not_space hW hg hs
 
+theorem stringAdd_sk {cfg : Cfg} {sql : Sql} {st st' : St} {ty : String} {text : List Char}
+    (h : stringAdd cfg sql st ty text = .ok st') : st'.skew = st.skew := by
+  unfold stringAdd at h
+  split at h
+  · split at h
+    · cases h
+    · exact add_sk h
+    · cases h
+  · exact add_sk h
+
 theorem stringBody_sk {cfg : Cfg} (hC : Clean cfg) {sql : Sql} (hW : WF sql) {st st' : St} {w : List Char} {e ty : String}
     (hraw : RawOK sql st.current w) (hns : ∀ c ∈ w, c ≠ ' ') (he : noNLs e.toList = true)
     (h : stringBody cfg sql st w e ty = .ok st') : st'.skew = st.skew := by
@@ -575,9 +615,7 @@ theorem stringBody_sk {cfg : Cfg} (hC : Clean cfg) {sql : Sql} (hW : WF sql) {st
   · cases h
   · obtain ⟨s, h1, h2⟩ := bind_ok h
     obtain ⟨r, h3, h4⟩ := bind_ok h2
-    split at h4
-    · cases h4
-    · rw [add_sk h4, extractString_sk hC (x := ⟨e.toList, _, _⟩) he h3, word_jump_sk hW hraw hns h1]
+    rw [stringAdd_sk h4, extractString_sk hC (x := ⟨e.toList, _, _⟩) he h3, word_jump_sk hW hraw hns h1]
 
 theorem scanString_sk {cfg : Cfg} (hC : Clean cfg) {sql : Sql} (hW : WF sql) {st st' : St} {w : List Char} {res : Res St}
     (hraw : RawOK sql st.current w) (h : scanString cfg sql st w = some res) (hr : res = .ok st') :
